@@ -1,20 +1,24 @@
 import PprofVerif.Lemmas.MessagesNested
+import PprofVerif.Lemmas.EncodeWF
+import PprofVerif.Lemmas.NormalizeIdem
 /-!
 # C01 — Profile serialization round-trips without loss
 
-Property theorems only (helper lemmas live in `Lemmas/`).  The full statement of the property
-(DESIGN.md Appendix D) is
+Property theorems only (helper lemmas live in `Lemmas/`).  The full statement of the property is
+proved here for ALL profiles (`parse_serialize`):
 
-    decode_encode : Valid p → UnitsAligned p → parseUncompressed (serialize p) = ok (normalize p)
+    Valid p → unitsAligned p → mapsSorted p → InRange p → EncSizes →
+        parseUncompressed (serialize p) = ok (normalize p)
 
-It factors through the wire-level ("X") message as `unmarshal ∘ encode` and
-`postDecode ∘ preEncode`.  Proved so far, for ALL inputs: the complete wire half
-(`wire_roundtrip`: every field of every message type, packed and unpacked repeated scalars,
-nested messages, optional-field elision, the string-table rule) and its building blocks.
-The `postDecode ∘ preEncode = normalize` half (string interning, label regrouping) is tied by the
-correspondence check only.  All theorems are about the executable model in `Model/Wire.lean` /
-`Model/Codec.lean`, which the correspondence check ties to profile/proto.go and
-profile/encode.go in both directions on every run.
+It factors through the wire-level ("X") message: `wire_roundtrip` (`unmarshal ∘ encode`: every
+field of every message type, packed and unpacked repeated scalars, nested messages,
+optional-field elision, the string-table rule) and `postDecode_preEncode`
+(`postDecode ∘ preEncode = normalize`: string interning, label regrouping, unit padding, id
+resolution).  `copy_eq_normalize`, `roundtrip_fixpoint`, `wire_reencode_identical` and
+`normalize_idem` give reading (2) of the property (what the parser returns survives
+write-then-parse unchanged and re-serializes identically).  All theorems are about the executable
+model in `Model/Wire.lean` / `Model/Codec.lean`, which the correspondence check ties to
+profile/proto.go and profile/encode.go in both directions on every run.
 -/
 namespace PV.Props.C01
 open PV PV.Wire PV.Codec
@@ -96,5 +100,231 @@ example : (⟨[1, 300, 3], [-1, 0, 7], [⟨1, 2, 0, 0⟩]⟩ : SampleX).WF := by
   · intro l hl; simp at hl; subst hl; unfold LabelX.WF; decide
   · intro l hl; simp at hl; subst hl
     simp [LabelX.encode, encodeInt64Opt, encodeInt64, encodeUint64, encodeVarint, two64, toU64]
+
+
+/-! ## The `postDecode ∘ preEncode` half and the composed round trip -/
+/-
+C01 — Profile serialization round-trips without loss: the `postDecode ∘ preEncode` half
+
+Property theorems only (helper lemmas live in `Lemmas/{Intern,InternEntities,LabelsRoundtrip,
+PostPre,EncodeWF,NormalizeIdem}.lean`).  Together with the wire half of `Props/C01.lean`
+(`wire_roundtrip`) this gives the full statement of the property,
+
+    parse_serialize : Valid p → unitsAligned p → mapsSorted p → InRange p → sizes →
+        parseUncompressed (serialize p) = ok (normalize p)
+
+for ALL profiles, about the executable model in `Model/Codec.lean` (tied to profile/encode.go by
+the correspondence check).  `Profile.normalize` is the only change a round trip may make: string
+labels with empty values disappear (index 0 is "no string" on the wire), numeric labels with
+value 0 and no unit disappear, unit lists are padded to the length of their value list, keys
+left without values disappear, a nil `PeriodType` becomes the empty value type.
+
+Hypotheses, all of them necessary for the model:
+* `Valid` (CheckValid + reference closure): otherwise ids resolve to nil/0;
+* `unitsAligned`: otherwise `preEncode` panics on `units[i]` (see C02);
+* `mapsSorted` (label maps are real maps, listed in key order): the model represents Go maps
+  as key-sorted association lists; this is a well-formedness condition of the representation;
+* `InRange` (ids are uint64, values int64) and `EncSizes` (string table shorter than 2^63
+  entries, variable-length bodies shorter than 2^64 bytes; `EncSizes_of_counts` discharges it
+  from element counts below 2^56): needed by the wire half only.
+`normalize_idem` needs distinct NumLabel keys (implied by `mapsSorted`); without them it fails on
+the model (`normalize_idem_fails_on_duplicate_keys`) — an artefact of association lists, Go maps
+cannot have duplicate keys.
+-/
+
+
+/-! ### non-vacuity witness used by the examples -/
+
+/-- a sample with two string labels (one key has an empty value, one key has only an empty
+value), a numeric label with mixed units (incl. value 0 with a unit, value 0 without unit,
+trailing empty unit), a numeric label without units, a NumUnit key absent from NumLabel, a
+location with two lines, a location without mapping, a nil PeriodType, an empty comment -/
+def exProfile : Profile :=
+  { sampleType := [⟨[99], [110]⟩], defaultSampleType := [99],
+    samples := [⟨[1, 2], [7],
+      [([97], [[120], [], [121]]), ([98], [[]])],
+      [([107], [0, 5, 0, 3]), ([108], [0, 4])],
+      [([107], [[], [117], [], []]), ([122], [[113]])]⟩],
+    mappings := [⟨1, 4096, 8192, 0, [102], [], true, false, true, false⟩],
+    locations := [⟨1, 1, 4100, [⟨1, 10, 2⟩, ⟨2, 20, 0⟩], false⟩, ⟨2, 0, 0, [], true⟩],
+    functions := [⟨1, [109], [109], [102], 9⟩, ⟨2, [103], [], [102], -1⟩],
+    comments := [[99], []], docURL := [], dropFrames := [100], keepFrames := [],
+    timeNanos := 5, durationNanos := -1, periodType := none, period := 0 }
+
+/-- what `preEncode` makes of it (14 interned strings, 10 flattened labels) -/
+def exEncoded : ProfileX :=
+  { sampleType := [⟨1, 2⟩],
+    sample := [⟨[1, 2], [7], [⟨3, 4, 0, 0⟩, ⟨3, 0, 0, 0⟩, ⟨3, 5, 0, 0⟩, ⟨6, 0, 0, 0⟩, ⟨7, 0, 0, 0⟩, ⟨7, 0, 5, 8⟩,
+      ⟨7, 0, 0, 0⟩, ⟨7, 0, 3, 0⟩, ⟨9, 0, 0, 0⟩, ⟨9, 0, 4, 0⟩]⟩],
+    mapping := [⟨1, 4096, 8192, 0, 10, 0, true, false, true, false⟩],
+    location := [⟨1, 1, 4100, [⟨1, 10, 2⟩, ⟨2, 20, 0⟩], false⟩, ⟨2, 0, 0, [], true⟩],
+    function := [⟨1, 11, 11, 10, 9⟩, ⟨2, 12, 0, 10, -1⟩],
+    stringTable := [[], [99], [110], [97], [120], [121], [98], [107], [117], [108], [102], [109], [103], [100]],
+    dropFramesX := 13, keepFramesX := 0, timeNanos := 5, durationNanos := -1, periodType := none, period := 0,
+    commentX := [1, 0], defaultSampleTypeX := 1, docURLX := 0 }
+
+example : preEncode exProfile = .ok exEncoded := by decide
+
+example : exProfile.Valid ∧ exProfile.unitsAligned = true ∧ exProfile.mapsSorted = true := by decide
+
+/-- the example really is changed by the round trip (so `normalize` is not the identity on it) -/
+example : Profile.normalize exProfile ≠ exProfile ∧
+    (Profile.normalize exProfile).samples.map (·.numUnit) = [[([107], [[117], []])]] := by decide
+
+/-! ### 1. string interning -/
+
+/-- **Interning bundle.**  On a table without duplicates whose entry 0 is the empty string,
+`addString` returns a table that extends the old one (prefix), still has no duplicates and
+entry 0 empty, and a non-negative index at which the new table holds `s`; the index is 0
+exactly for the empty string; and every index valid before is valid, for the same string,
+in every later extension (hence in the final table of `preEncode`). -/
+theorem interning_bundle (t : StrTab) (s : Str) (h : TabInv t) :
+    TabInv (addString t s).1 ∧ t <+: (addString t s).1 ∧
+    0 ≤ (addString t s).2 ∧ (addString t s).1[(addString t s).2.toNat]? = some s ∧
+    ((addString t s).2 = 0 ↔ s = []) ∧
+    (∀ (i : Int) (s' : Str) (t' : StrTab), Res t i s' → (addString t s).1 <+: t' → getString t' i = .ok s') := by
+  obtain ⟨h1, h2, h3⟩ := addString_spec t s h
+  exact ⟨h1, h2, h3.1, h3.2, addString_zero_iff t s h,
+    fun i s' t' hr ht => getString_of_Res ((hr.mono h2).mono ht)⟩
+
+example : TabInv [[], [99]] ∧ addString [[], [99]] [100] = ([[], [99], [100]], 2) ∧
+    addString [[], [99]] [99] = ([[], [99]], 1) := ⟨⟨by decide, rfl⟩, by decide, by decide⟩
+
+/-! ### 2. label regrouping -/
+
+/-- **Padding invariant of the NumUnit regrouping loop.**  While `postDecode` processes the
+numeric labels of one key `k` (not yet present in the maps `NL`, `NU`), after the kept pairs
+`done` the value list of `k` is `done.map fst` and its unit list is `done.map snd` *with the
+trailing empty units removed* (Go pads lazily, when the next non-empty unit arrives); pairs
+with value 0 and empty unit are skipped.  `optKV k c` is the map entry of `k`, absent while `c`
+is empty.  At the end of the sample the trimmed list is padded back (`padding_closes`). -/
+theorem padding_invariant (k : Str) (Lb : List (Str × List Str)) (NL : List (Str × List Int))
+    (NU : List (Str × List Str)) (hk1 : k ∉ keys NL) (hk2 : k ∉ keys NU) (ps done : List (Int × Str)) :
+    (ps.map (fun p => SemLabel.num k p.1 p.2)).foldl semStep
+        ⟨Lb, NL ++ optKV k (done.map (·.1)), NU ++ optKV k (dropTrailingEmpty (done.map (·.2)))⟩ =
+      ⟨Lb, NL ++ optKV k ((done ++ ps.filter keepPair).map (·.1)),
+        NU ++ optKV k (dropTrailingEmpty ((done ++ ps.filter keepPair).map (·.2)))⟩ :=
+  foldl_num_key k Lb NL NU hk1 hk2 ps done
+
+/-- … and padding the trimmed units to the number of values restores every unit. -/
+theorem padding_closes (us : List Str) : padStringArray (dropTrailingEmpty us) us.length = us :=
+  pad_dropTrailingEmpty us
+
+example : dropTrailingEmpty [[], [117], [], []] = [[], [117]] ∧
+    padStringArray [[], [117]] 4 = [[], [117], [], []] := by decide
+
+/-- **Label regrouping.**  If the wire labels of `x` denote (in a table satisfying the
+interning invariant) the labels of `s` in the order `preEncode` flattens them, and the label
+maps of `s` are key-sorted, `postSample` rebuilds exactly `Sample.normalize s`: empty string
+values and keys left without values are dropped, zero values with empty unit are dropped, unit
+lists are padded to the value lists, `numUnit` is present only for keys with a non-empty unit,
+all in key order. -/
+theorem label_regrouping {tab : StrTab} (hinv : TabInv tab) {s : Sample} {x : SampleX}
+    (hloc : x.locationIDX = s.locationIDs) (hval : x.value = s.values)
+    (hd : All2 (fun sl l => Denotes tab l sl) (semLabels s) x.labelX) (hs : s.mapsSorted = true) :
+    postSample tab x = .ok (Sample.normalize s) :=
+  postSample_of_SampRel hinv ⟨hloc, hval, hd⟩ hs
+
+/-! ### 3. `postDecode ∘ preEncode = normalize` -/
+
+/-- **Second half of C01.**  For every valid profile with aligned units and key-sorted label
+maps, `preEncode` succeeds and `postDecode` of its output is the normalised profile.  (No range
+hypotheses: the model's integers are unbounded; ranges matter on the wire only.) -/
+theorem postDecode_preEncode (p : Profile) (hv : p.Valid) (ha : p.unitsAligned = true)
+    (hs : p.mapsSorted = true) :
+    ∃ x, preEncode p = .ok x ∧ postDecode x = .ok (Profile.normalize p) := by
+  obtain ⟨x, hx, hrel⟩ := preEncode_spec p ha
+  exact ⟨x, hx, postDecode_of_EncRel hrel hv hs⟩
+
+example : ∃ x, preEncode exProfile = .ok x ∧ postDecode x = .ok (Profile.normalize exProfile) :=
+  postDecode_preEncode exProfile (by decide) (by decide) (by decide)
+
+/-- `serialize` neither panics nor fails on a profile whose units are aligned (the documented
+NumUnit contract): `units[i]` is the only panic site of `preEncode`. -/
+theorem serialize_never_panics_of_unitsAligned (p : Profile) (ha : p.unitsAligned = true) :
+    (∃ b, serialize p = .ok b) ∧ ∀ s, serialize p ≠ .panic s := by
+  obtain ⟨x, hx, _⟩ := preEncode_spec p ha
+  have : serialize p = .ok x.encode := by unfold serialize; rw [hx]; rfl
+  exact ⟨⟨_, this⟩, fun s hs => by rw [this] at hs; cases hs⟩
+
+example : exProfile.unitsAligned = true := by decide
+
+/-! ### 4. `normalize` -/
+
+/-- Normalising twice is normalising once (for profiles whose label maps are real maps). -/
+theorem normalize_idem (p : Profile) (hs : p.mapsSorted = true) :
+    Profile.normalize (Profile.normalize p) = Profile.normalize p := by
+  apply Profile.normalize_idem_of_nodup
+  intro s hs'
+  unfold Profile.mapsSorted at hs
+  rw [List.all_eq_true] at hs
+  have := hs s hs'
+  unfold Sample.mapsSorted at this
+  simp only [Bool.and_eq_true] at this
+  exact nodup_keys_of_pairwise (pairwise_of_keysSorted _ this.1.2)
+
+example : exProfile.mapsSorted = true := by decide
+
+/-- Full statement `∀ p, normalize (normalize p) = normalize p` is FALSE for the model: with a
+duplicated NumLabel key (impossible for a Go map) `lookup` pairs the second entry with the units
+of the first one. -/
+theorem normalize_idem_fails_on_duplicate_keys :
+    ∃ s : Sample, s.mapsSorted = false ∧ Sample.normalize (Sample.normalize s) ≠ Sample.normalize s :=
+  ⟨dupKeySample, by decide, normalize_not_idem_dupKey⟩
+
+/-- The result of a round trip is a fixpoint: it is again valid, aligned and key-sorted, and a
+second `preEncode`/`postDecode` returns it unchanged. -/
+theorem roundtrip_fixpoint (p : Profile) (hv : p.Valid) (ha : p.unitsAligned = true) (hs : p.mapsSorted = true) :
+    (Profile.normalize p).Valid ∧ (Profile.normalize p).unitsAligned = true ∧
+    (Profile.normalize p).mapsSorted = true ∧
+    ∃ y, preEncode (Profile.normalize p) = .ok y ∧ postDecode y = .ok (Profile.normalize p) := by
+  obtain ⟨x, _, hx⟩ := postDecode_preEncode p hv ha hs
+  obtain ⟨ha', hs'⟩ := postDecode_ok x _ hx
+  have hv' : (Profile.normalize p).Valid := by
+    unfold Profile.Valid at hv ⊢; rw [validB_normalize]; exact hv
+  obtain ⟨y, hy, hpost⟩ := postDecode_preEncode _ hv' ha' hs'
+  rw [normalize_idem p hs] at hpost
+  exact ⟨hv', ha', hs', y, hy, hpost⟩
+
+example : (Profile.normalize exProfile).Valid ∧ Profile.normalize exProfile ≠ exProfile := by decide
+
+/-! ### 5. the whole round trip -/
+
+/-- **C01, full statement.**  For every valid profile with aligned units and key-sorted label
+maps whose integers fit their Go types, `serialize` succeeds and `ParseUncompressed` of its
+bytes is the normalised profile — provided the size side conditions `EncSizes` hold for the
+encoded message (`EncSizes_of_counts`: any profile with fewer than 2^56 elements per list). -/
+theorem parse_serialize (p : Profile) (hv : p.Valid) (ha : p.unitsAligned = true) (hs : p.mapsSorted = true)
+    (hr : InRange p) (hz : ∀ x, preEncode p = .ok x → EncSizes x) :
+    ∃ b, serialize p = .ok b ∧ parseUncompressed b = .ok (Profile.normalize p) := by
+  obtain ⟨x, hx, hrel⟩ := preEncode_spec p ha
+  have hsz := hz x hx
+  refine ⟨x.encode, by unfold serialize; rw [hx]; rfl, ?_⟩
+  rw [parseUncompressed_encode x (WF_of_EncRel hrel hr hsz) (Sized_of_EncRel hrel hr hsz)]
+  exact postDecode_of_EncRel hrel hv hs
+
+/-- `Copy` never panics under the same hypotheses and returns the normalised profile. -/
+theorem copy_eq_normalize (p : Profile) (hv : p.Valid) (ha : p.unitsAligned = true) (hs : p.mapsSorted = true)
+    (hr : InRange p) (hz : ∀ x, preEncode p = .ok x → EncSizes x) :
+    copy p = .ok (Profile.normalize p) := by
+  obtain ⟨x, hx, hrel⟩ := preEncode_spec p ha
+  have hsz := hz x hx
+  have h1 : serialize p = .ok x.encode := by unfold serialize; rw [hx]; rfl
+  unfold copy
+  rw [h1, Outcome.bind_ok, unmarshal_encode x (WF_of_EncRel hrel hr hsz) (Sized_of_EncRel hrel hr hsz),
+    Outcome.bind_ok, postDecode_normPT, postDecode_of_EncRel hrel hv hs]
+
+example : (∃ b, serialize exProfile = .ok b ∧ parseUncompressed b = .ok (Profile.normalize exProfile)) ∧
+    copy exProfile = .ok (Profile.normalize exProfile) := by
+  have hr : InRange exProfile := ⟨by decide, by decide, by decide, by decide, by decide, by decide, by decide⟩
+  have hz : ∀ x, preEncode exProfile = .ok x → EncSizes x := by
+    intro x hx
+    have h : preEncode exProfile = .ok exEncoded := by decide
+    rw [h] at hx
+    cases hx
+    exact EncSizes_of_counts (by decide) (by decide) (by decide) (by decide) (by decide)
+  exact ⟨parse_serialize exProfile (by decide) (by decide) (by decide) hr hz,
+    copy_eq_normalize exProfile (by decide) (by decide) (by decide) hr hz⟩
+
 
 end PV.Props.C01
